@@ -34,6 +34,7 @@ type c13Geom struct {
 
 // prfStream is an io.Reader delivering PRF bytes in configurable pieces.
 type prfStream struct {
+	zeros   bool // the payload has 8 KiB runs of zero bytes at every 16 KiB (whole sectors of zeroes, as any filesystem image has)
 	seed    uint64
 	total   int64
 	pos     int64
@@ -61,6 +62,19 @@ func prfAt(seed uint64, pos int64, n int) []byte {
 	return raw[pos-base : int(pos-base)+n]
 }
 
+// payloadAt: the supplied bytes; with zeros, [k*16384, k*16384+8192) is zero for every k.
+func payloadAt(seed uint64, pos int64, n int, zeros bool) []byte {
+	b := prfAt(seed, pos, n)
+	if zeros {
+		for i := range b {
+			if (pos+int64(i))%16384 < 8192 {
+				b[i] = 0
+			}
+		}
+	}
+	return b
+}
+
 func (p *prfStream) Read(b []byte) (int, error) {
 	if p.pos >= p.total {
 		return 0, io.EOF
@@ -79,7 +93,7 @@ func (p *prfStream) Read(b []byte) (int, error) {
 	if int64(n) > p.total-p.pos {
 		n = int(p.total - p.pos)
 	}
-	copy(b, prfAt(p.seed, p.pos, n))
+	copy(b, payloadAt(p.seed, p.pos, n, p.zeros))
 	p.pos += int64(n)
 	if p.mode == "eofwith" && p.pos >= p.total {
 		return n, io.EOF
@@ -294,7 +308,10 @@ func c13Run(c core.Case, env *core.Env) core.Result {
 		st.ResetCounters()
 		st.SetAllowed(monstore.Range{Off: pStart, End: pStart + pSize})
 		st.SetLog(true)
-		rd := &prfStream{seed: uint64(c.Seed) * 77, total: g.RLen, mode: g.Chunk}
+		rd := &prfStream{seed: uint64(c.Seed) * 77, total: g.RLen, mode: g.Chunk, zeros: c.Seed%2 == 0}
+		if rd.zeros {
+			res.Mark("payload with whole sectors of zeroes onto a partition holding other data")
+		}
 		var n int64
 		var werr error
 		if pi := core.Guard(func() { n, werr = d.WritePartitionContents(1, rd) }); pi != nil {
@@ -334,7 +351,7 @@ func c13Run(c core.Case, env *core.Env) core.Result {
 				if pSize-off < k {
 					k = pSize - off
 				}
-				if !bytes.Equal(st.Peek(pStart+off, int(k)), prfAt(rd.seed, off, int(k))) {
+				if !bytes.Equal(st.Peek(pStart+off, int(k)), payloadAt(rd.seed, off, int(k), rd.zeros)) {
 					bad = off
 					break
 				}
@@ -391,6 +408,14 @@ func c13Run(c core.Case, env *core.Env) core.Result {
 	case "copy":
 		tStart := int64(g.Start2) * int64(g.LSS)
 		tSize := int64(g.Sect2) * int64(g.LSS)
+		if c.Seed%2 == 0 && pSize <= 64<<20 {
+			// the source holds whole sectors of zeroes (as any filesystem image does); the target holds other data
+			for off := int64(0); off < pSize; off += 1 << 20 {
+				k := min(int64(1<<20), pSize-off)
+				st.Poke(payloadAt(uint64(c.Seed)*131, off, int(k), true), pStart+off)
+			}
+			res.Mark("copy of a partition with whole sectors of zeroes onto a partition holding other data")
+		}
 		st.SetAllowed(monstore.Range{Off: tStart, End: tStart + tSize})
 		var cerr error
 		if pi := core.Guard(func() { cerr = fsync.CopyPartitionRaw(d, 1, 2) }); pi != nil {
@@ -419,10 +444,10 @@ func init() {
 	core.Register(&core.Check{
 		ID:    "C13",
 		Level: "exploration",
-		Rule: "partition geometries (start below/straddling/above 4 GiB, byte size below and above 2^32, sizes that are and are not multiples of the physical sector) x GPT/MBR x logical 512/4096 x physical 512/4096 x reader lengths {size, size-1, size+1, 0, 2*size, size-sector, size+sector} x readers delivering odd-sized pieces or data together with io.EOF; each case runs the real WritePartitionContents/ReadPartitionContents/CopyPartitionRaw on a PRF-filled sparse store with a range guard on the partition; a case is non-trivial when the call ran to a verdict; distinct = distinct (op, geometry class, sizes, chunking)",
+		Rule: "partition geometries (start below/straddling/above 4 GiB, byte size below and above 2^32, sizes that are and are not multiples of the physical sector) x GPT/MBR x logical 512/4096 x physical 512/4096 x reader lengths {size, size-1, size+1, 0, 2*size, size-sector, size+sector} x readers delivering odd-sized pieces or data together with io.EOF x payloads that are all non-zero or carry 8 KiB runs of zero bytes (every second case; the device always holds other, non-zero data beforehand); each case runs the real WritePartitionContents/ReadPartitionContents/CopyPartitionRaw on a PRF-filled sparse store with a range guard on the partition; a case is non-trivial when the call ran to a verdict; distinct = distinct (op, geometry class, sizes, chunking)",
 		Assumptions: []string{"the store is a sparse 1 TiB device whose unwritten bytes are a PRF of the offset, so misplaced reads and writes are visible", "CopyPartitionRaw is driven only with a target at least as large as the source"},
 		MinSigs:   map[string]int{"quick": 100, "thorough": 2000},
-		NeedMarks: []string{"start>=4GiB", "straddles-4GiB", "size>=4GiB", "reader == size", "reader < size", "reader > size", "op read", "op copy"},
+		NeedMarks: []string{"start>=4GiB", "straddles-4GiB", "size>=4GiB", "reader == size", "reader < size", "reader > size", "op read", "op copy", "payload with whole sectors of zeroes onto a partition holding other data", "copy of a partition with whole sectors of zeroes onto a partition holding other data"},
 		CPUSec:    300,
 		Cases:     c13Cases,
 		Run:       c13Run,
